@@ -294,7 +294,7 @@ def check_single(rep, http, cfg):
     for f in http.built:
         for bb, t in f.calls('crux_http::protocol::ProtocolRequestBuilder::into_protocol_request'):
             callers.append(f)
-    names = sorted(set(c.kpath for c in callers))
+    names = sorted(set(http.host_root(c) for c in callers))
     from rules.props import c16
     under = c16.endpoints_under_next(http)
     rep.expect('R14.b', len(names) == 2 and any(c16.is_under(c, under) for c in callers) and
